@@ -38,6 +38,8 @@ pub enum Site {
     Word { kinds: &'static [WKind], applicable: fn(&PacketT, usize, &[PacketT], usize) -> bool, apply: fn(&mut [u8; 10], &PacketT) },
     /// more than 15 bytes of 0xFF appended to a format-2 payload
     Padding,
+    /// the whole payload is replaced by 16 bytes of 0xFF (nothing but padding, one byte more than allowed)
+    PaddingOnly,
     /// the whole HBF after the first gets the orbit of the previous HBF
     SameOrbitHbf,
 }
@@ -178,6 +180,7 @@ pub fn catalogue() -> Vec<Fault> {
         wordf!("data.id=0x3D", &["E70", "E99"], Its, &[WKind::Data], any_word, |w, _| w[9] = 0x3D),
         wordf!("data.id=0x5F", &["E70", "E99"], Its, &[WKind::Data], any_word, |w, _| w[9] = 0x5F),
         Fault { name: "payload.padding 16 bytes", families: &["PAYLOAD"], scope: Its, site: Site::Padding },
+        Fault { name: "payload.nothing but 16 bytes of padding", families: &["PAYLOAD"], scope: Its, site: Site::PaddingOnly },
         // ---- ITS running
         rdhf!("its.stop bit on a data page (IHW)", &["E12"], ItsRunning, data_page, |r| r.stop_bit = 1),
         rdhf!("its.stop bit cleared on the stop page (DDW0)", &["E110"], ItsRunning, stop_page, |r| r.stop_bit = 0),
